@@ -115,6 +115,10 @@ def edge_fact(body, sb, lab):
             ds = body.defs.get(inner[1], [])
             if len(ds) == 1 and ds[0][1] == "term":
                 inner = ("call", ds[0][0])
+        if lab == "otherwise":
+            vals = [v for v, _ in t["arms"]]
+            if len(vals) == 1 and vals[0] in (0, 1):
+                lab = 1 - vals[0]
         if inner[0] != "call" and lab != "otherwise":
             # discriminant of a payload / local that is not directly a call result: classify by type
             of = None
@@ -125,6 +129,12 @@ def edge_fact(body, sb, lab):
                 return ("cls", None, "Ok" if lab == 0 else "Err", inner)
             if of and of.startswith("core::option::Option<"):
                 return ("cls", None, "Some" if lab == 1 else "None", inner)
+        if lab == "otherwise":
+            # two-variant enums: `otherwise` next to one explicit arm is the other variant
+            # (let-else / if-let lowerings)
+            vals = [v for v, _ in t["arms"]]
+            if len(vals) == 1 and vals[0] in (0, 1):
+                lab = 1 - vals[0]
         if inner[0] == "call" and lab != "otherwise":
             ct = body.term(inner[1])
             n = callee_name(ct)
@@ -150,51 +160,221 @@ def guards_at(body, bb):
     return out
 
 
-def describe(body, e, depth=0):
-    """short stable description of a provenance root, used in tables and reports"""
+_ANCHORS = None
+
+
+def anchors(F):
+    """local functions that existed on the reference tree (lsa/anchors.json, frozen by
+    lsa/freeze_floors.py): the rule tables may name them, so describe() never inlines them.
+    Any other local function is a helper introduced later; its calls are described by what the
+    helper returns, so extracting a helper does not change what the rules see."""
+    global _ANCHORS
+    if _ANCHORS is None:
+        import os, json
+        p = os.path.join(os.path.dirname(os.path.dirname(os.path.abspath(__file__))), "anchors.json")
+        _ANCHORS = set(json.load(open(p))) if os.path.exists(p) else set()
+    return _ANCHORS
+
+
+NAME_NORM = {
+    "core::cmp::max": "core::cmp::Ord::max", "core::cmp::min": "core::cmp::Ord::min",
+    "<usize as core::cmp::Ord>::max": "core::cmp::Ord::max", "<usize as core::cmp::Ord>::min": "core::cmp::Ord::min",
+}
+
+
+def _payload(body, inner, variant, depth, subst):
+    """describe `(inner as variant).0`"""
+    inner = strip_refs(inner)
+    if inner[0] == "mem":
+        ds = body.defs.get(inner[1], [])
+        if len(ds) == 1 and ds[0][1] == "term":
+            inner = ("call", ds[0][0])
+    if inner[0] == "call":
+        ct = body.term(inner[1])
+        cn = callee_name(ct)
+        if cn.endswith("::branch") and "Try" in (ct.get("callee") or ""):
+            a = describe(body, body.origin_operand(ct["args"][0]), depth + 1, subst)
+            return ("ok(%s)" if variant == 0 else "err(%s)") % a
+        dty = body.local_ty(ct["dest"]["l"]) if not ct["dest"]["p"] else ""
+        d = describe(body, inner, depth + 1, subst)
+        if dty.startswith("core::result::Result<"):
+            return ("ok(%s)" if variant == 0 else "err(%s)") % d
+        if dty.startswith("core::option::Option<"):
+            return ("none(%s)" if variant == 0 else "some(%s)") % d
+        return "v%d(%s)" % (variant, d)
+    if inner[0] == "field" and len(inner) > 3 and inner[3]:
+        ty = inner[3]
+        d = describe(body, inner, depth + 1, subst)
+        if ty.lstrip("&").startswith("core::result::Result<"):
+            return ("ok(%s)" if variant == 0 else "err(%s)") % d
+        if ty.lstrip("&").startswith("core::option::Option<"):
+            return ("none(%s)" if variant == 0 else "some(%s)") % d
+    if inner[0] in ("local", "param"):
+        ty = body.local_ty(inner[1])
+        d = describe(body, inner, depth + 1, subst)
+        if ty.lstrip("&").startswith("core::result::Result<"):
+            return ("ok(%s)" if variant == 0 else "err(%s)") % d
+        if ty.lstrip("&").startswith("core::option::Option<"):
+            return ("none(%s)" if variant == 0 else "some(%s)") % d
+    return "v%d(%s)" % (variant, describe(body, inner, depth + 1, subst))
+
+
+def describe(body, e, depth=0, subst=None):
+    """short stable description of a provenance root, used in tables and reports.
+    Canonical forms: ok(X)/err(X)/some(X) for payloads whichever way they are taken (`?`, match,
+    if-let); err(X) also for the early-return value built from X's error; calls to local helper
+    functions the rule tables do not name are replaced by what the helper returns."""
     e = strip_refs(e)
     k = e[0]
-    if depth > 14:
+    if depth > 18:
         return "..."
+    D = lambda x: describe(body, x, depth + 1, subst)
     if k == "param":
+        if subst is not None and e[1] in subst:
+            return subst[e[1]]
         return "p%d" % e[1]
     if k == "const":
         return "const:%s" % (e[3] or e[2])
     if k == "call":
         t = body.term(e[1])
         nm = callee_name(t)
+        args = [body.origin_operand(a) for a in t["args"]]
+        if "from_residual" in nm and args:
+            a = D(args[0])
+            return a if a.startswith("err(") else "err(%s)" % a
+        # helper inlining
+        key = t.get("local_key")
+        F = body.facts
+        if key and key in F.bodies and key not in anchors(F) and depth < 10 and key != body.path:
+            hb = F.bodies[key]
+            defs = hb.defs.get(0, [])
+            if defs and hb.j["kind"] != "closure":
+                sub = {i + 1: D(a) for i, a in enumerate(args)}
+                outs = sorted({describe(hb, ("call", bb) if si == "term" else hb.origin_rvalue(x), depth + 2, sub) for (bb, si, x) in defs})
+                return outs[0] if len(outs) == 1 else "phi(%s)" % ", ".join(outs)
+        nm = NAME_NORM.get(nm, nm)
         if nm in ("core::mem::size_of", "core::mem::align_of"):
             nm += "::<%s>" % ", ".join(t.get("generic_args", []))
-        return "%s(%s)" % (nm, ", ".join(describe(body, body.origin_operand(a), depth + 1) for a in t["args"]))
+        return "%s(%s)" % (nm, ", ".join(D(a) for a in args))
     if k == "field" and e[1][0] == "downcast":
-        inner = strip_refs(e[1][1])
-        if inner[0] == "mem":
-            ds = body.defs.get(inner[1], [])
-            if len(ds) == 1 and ds[0][1] == "term":
-                inner = ("call", ds[0][0])
-        if inner[0] == "call":
-            ct = body.term(inner[1])
-            if callee_name(ct).endswith("::branch"):
-                return "ok(%s)" % describe(body, body.origin_operand(ct["args"][0]), depth + 1)
-        return "v%d(%s)" % (e[1][2], describe(body, inner, depth + 1))
+        return _payload(body, e[1][1], e[1][2], depth, subst)
     if k == "field":
-        return "%s.%d" % (describe(body, e[1], depth + 1), e[2])
+        return "%s.%d" % (D(e[1]), e[2])
     if k == "deref":
-        return "*%s" % describe(body, e[1], depth + 1)
+        return "*%s" % D(e[1])
     if k in ("ref", "rawptr"):
-        return "&%s" % describe(body, e[2], depth + 1)
+        return "&%s" % D(e[2])
     if k == "cast":
-        return "(%s as %s)" % (describe(body, e[2], depth + 1), e[3])
+        return "(%s as %s)" % (D(e[2]), e[3])
     if k == "bin":
-        return "%s(%s, %s)" % (e[1], describe(body, e[2], depth + 1), describe(body, e[3], depth + 1))
+        return "%s(%s, %s)" % (e[1], D(e[2]), D(e[3]))
     if k == "un":
-        return "%s(%s)" % (e[1], describe(body, e[2], depth + 1))
+        return "%s(%s)" % (e[1], D(e[2]))
     if k == "phi":
-        return "phi(%s)" % ", ".join(sorted(describe(body, x, depth + 1) for x in e[1]))
+        return "phi(%s)" % ", ".join(sorted({D(x) for x in e[1]}))
     if k in ("local", "mem", "loop"):
         return "%s:%s" % (k, body.local_name(e[1]) or e[1])
     if k == "fn":
         return "fn:%s%s" % (e[3] or e[1], ("::<%s>" % ", ".join(e[2])) if e[2] and not e[3] else "")
     if k == "agg":
-        return "%s::%s{%s}" % (e[1], e[2], ", ".join(describe(body, x, depth + 1) for x in e[3]))
+        if e[1] == "core::result::Result" and e[2] == "Err" and len(e[3]) == 1:
+            a = D(e[3][0])
+            if a.startswith("err("):
+                return a
+            m = __import__("re").match(r"^(?:<.* as core::convert::From<.*>>::from|core::convert::From::from)\((err\(.*\))\)$", a)
+            if m:
+                return m.group(1)
+        return "%s::%s{%s}" % (e[1], e[2], ", ".join(D(x) for x in e[3]))
     return k
+
+
+def inlined_calls(body, depth=2, _seen=None):
+    """calls of a body, plus (recursively) the calls of local helper functions that are not
+    anchors: yields (body, bb, terminator)"""
+    if _seen is None:
+        _seen = {body.path}
+    F = body.facts
+    for bb, t in body.calls():
+        yield body, bb, t
+        k = t.get("local_key")
+        if k and depth > 0 and k in F.bodies and k not in anchors(F) and k not in _seen and F.bodies[k].j["kind"] != "closure":
+            _seen.add(k)
+            for x in inlined_calls(F.bodies[k], depth - 1, _seen):
+                yield x
+
+
+def find_call(body, e, names, depth=0):
+    """first call to one of `names` inside provenance expression e (through call arguments,
+    payload projections, aggregates and phis) -> (bb) or None"""
+    e = strip_refs(e)
+    if depth > 14:
+        return None
+    k = e[0]
+    if k == "call":
+        t = body.term(e[1])
+        if callee_name(t) in names:
+            return e[1]
+        for a in t["args"]:
+            r = find_call(body, body.origin_operand(a), names, depth + 1)
+            if r is not None:
+                return r
+        return None
+    if k in ("field", "downcast", "deref"):
+        return find_call(body, e[1], names, depth + 1)
+    if k in ("ref", "rawptr", "cast", "un"):
+        return find_call(body, e[2], names, depth + 1)
+    if k == "mem":
+        for d in body.defs.get(e[1], []):
+            x = ("call", d[0]) if d[1] == "term" else body.origin_rvalue(d[2])
+            if x != e:
+                r = find_call(body, x, names, depth + 1)
+                if r is not None:
+                    return r
+        return None
+    if k == "phi":
+        for x in e[1]:
+            r = find_call(body, x, names, depth + 1)
+            if r is not None:
+                return r
+    if k == "agg":
+        for x in e[3]:
+            r = find_call(body, x, names, depth + 1)
+            if r is not None:
+                return r
+    if k == "bin":
+        return find_call(body, e[2], names, depth + 1) or find_call(body, e[3], names, depth + 1)
+    return None
+
+
+def cmp_facts(body):
+    """all integer comparison edge facts of a body: list of (root description, lo, hi, switch bb, label)"""
+    out = []
+    for sb in range(body.n):
+        t = body.term(sb)
+        if t["k"] != "switch" or is_debug_only_switch(body, sb) or sb in body.debug_only_blocks():
+            continue
+        labs = [v for v, _ in t["arms"]] + ["otherwise"]
+        for lab in labs:
+            f = edge_fact(body, sb, lab)
+            if f and f[0] == "cmp":
+                out.append((describe(body, f[1]), f[2], f[3], sb, lab))
+    return out
+
+
+def peel_ptr(body, e):
+    """look through library functions that return the pointer/reference they are given"""
+    from typestate import PTR_TRANSPARENT
+    e = strip_refs(e)
+    while e[0] == "call" and callee_name(body.term(e[1])) in PTR_TRANSPARENT and body.term(e[1])["args"]:
+        e = strip_refs(body.origin_operand(body.term(e[1])["args"][0]))
+    return e
+
+
+def callers_of(F, key):
+    """call sites of local function `key`: list of (body, bb, terminator)"""
+    out = []
+    for b in F.bodies.values():
+        for bb, t in b.calls():
+            if t.get("local_key") == key:
+                out.append((b, bb, t))
+    return out
